@@ -291,6 +291,7 @@ int main(int argc, char** argv)
     "harness colouring instead of UnitCubeColoring (which only exists for refined unit cubes)",
     "meshes with negatively oriented cells are excluded on the voxel route (voxel meshes are positively oriented by construction; the kernels use the signed determinant)",
     "the voxel Burgers vector (defect) route has no Frechet/streamline-diffusion terms by design: checked only for frechet_beta == 0 and sd_delta == 0",
+    "only the host (generic/OpenMP) double/Index instantiations are covered: CUDA kernels (grouped_*, *_cuda), the float and std::uint32_t explicit instantiations and set_sd_v_norm for Global::Vector (MPI) are out of scope",
     "oracle integrates polynomials only"};
   spec.max_fail_per_worker = 100000;
   spec.max_jobs = 8; // each case may run 4 OpenMP threads
